@@ -11,9 +11,11 @@ Property theorems (and the lemmas they need). Model: `Model/Rule.lean`.
   `next_rule` over pairwise distinct domain elements: nothing is ever suppressed (`evalT_fresh`).
 * `C08_build_partial` — construction: the surgery as it is (fixes 5ccefb5, 6d59379) leaves the well-formed
   tree for every unambiguous program with ≤ 4 branches (finite table, kernel evaluation; payload-independent by
-  construction); the unbounded `C08_full` is stated in a comment, not proved.
+  construction). SUBSUMED by the unbounded `C08_build` (`Props/C08Build.lean`: every unambiguous program, by
+  induction over the program with a store/tree representation invariant); kept as an independent kernel-evaluated
+  cross-check of the layout functions.
 * `C08_today_end_to_end` — builder + evaluator = `fire` on every unambiguous program with ≤ 4 branches, every payload,
-  every domain.
+  every domain. Subsumed by `C08_end_to_end` (`Props/C08Build.lean`).
 * `C08_cex_third_alternative`, `C08_cex_nested_refinement`, `C08_cex_next_same_binding` — the three repaired findings:
   what `Quirks.legacy` (the code before the fixes) did on their witnesses and what `Quirks.today` does.
 * `C08_two_variables_conservative`, `C08_spec_conservative` — the two-variable evaluator `evalT2` / specification
@@ -24,7 +26,8 @@ Property theorems (and the lemmas they need). Model: `Model/Rule.lean`.
 * `C08_authoring` — multi-step authoring, unbounded: closing the `with rule:` block and opening `with rule:` again on
   the same rule, anywhere between the top-level statements, leaves the very same store behind (the conditions root
   is cached). `C08_build_partial_authored`, `C08_today_end_to_end_authored` — the
-  build theorems for rules written in several blocks with the base `Add` anywhere between the branches.
+  build theorems for rules written in several blocks with the base `Add` anywhere between the branches (≤ 3
+  branches, finite table); subsumed by `C08_build_authored` / `C08_build_authored_at` (`Props/C08Build.lean`).
 -/
 namespace KrroodVerif.Rdr
 
@@ -1372,8 +1375,8 @@ The builder never sees conditions or conclusions (they live in the payload table
 payload. A finite table checked by kernel evaluation. (Before the two fixes this held for 75 of the skeletons only,
 see the counter-example theorems below.)
 
-Full statement `C08_full` (out of reach here — it needs an invariant relating the pointer store to the abstract
-tree through arbitrary nesting; kept as the target):
+Full statement `C08_full`, now PROVED as `C08_build` in `Props/C08Build.lean` (invariant relating the pointer store
+to the abstract tree through arbitrary nesting: `Lemmas/RuleBuild.lean`):
 `∀ p : Prog, p.unambiguous = true → ∃ t, (build Quirks.today p).bind BState.tree = some t ∧ WellFormed t p.toRule` -/
 theorem C08_build_partial (p : Prog) (hp : p ∈ skeletons 4) (hu : p.unambiguous = true) :
     ∃ t, (build Quirks.today p).bind BState.tree = some t ∧ WellFormed t p.toRule := by
